@@ -32,3 +32,11 @@ Proof. vm_compute. reflexivity. Qed.
 (* C01: every list separator separates tokens *)
 Lemma separators_checked : bad_separators sql_prog = [].
 Proof. vm_compute. reflexivity. Qed.
+
+(* ---------- package-level state (Gen/Globals.v from all library packages) ---------- *)
+From Verif Require Import Gen.Globals.
+(* C18: no package-level variable is written, address-taken or appended to outside init(); no goroutines, no sync/atomic/
+   unsafe; struct fields are written only through receivers of the per-call objects Parser, Lexer, File *)
+Lemma globals_checked :
+  globals_ok global_writes go_statements concurrency_imports receiver_field_writes ["Parser"; "Lexer"; "File"]%string = true.
+Proof. vm_compute. reflexivity. Qed.
